@@ -200,6 +200,10 @@ def model_cmd(model, pre_events, req, agent, real_new_events, po=None):
     ids = [e["id"] for e in real_new_events if e["k"] == "new"]
     uuids = [e["uuid"] for e in real_new_events if e["k"] == "new"]
     mreq = {k: v for k, v in req.items() if k != "stdin_raw"}
+    # a failing create wrote no event to read the drawn id back from: give the model spare draws so it gets
+    # past id selection to the follow-up validation, as the real code does
+    ids = ids + ["~spare%d" % i for i in range(8)]
+    uuids = uuids + ["~uuid%d" % i for i in range(8)]
     env = {"agent": agent, "ids": ids, "uuids": uuids, "times": [str(MARK + i) for i in range(64)]}
     if po is not None:
         env["po"] = po
